@@ -160,13 +160,12 @@ def compactAdjacent (prog : NList) : Bool :=
 
 /-- classes that explain a normal-mode failure, in reporting order (the classes of the defects repaired
 since — number-literal-next-to-dot, line-comment-then-same-line-comment, open-ended-colon-outside-index,
-string-with-abfv-control-byte — are no longer listed: a failure there is unclassified again) -/
+string-with-abfv-control-byte, illegal-token-as-parameter (parameters are checked by the parser since d623622) — are no longer listed: a failure there is unclassified again) -/
 def normalClasses (prog : NList) : List String :=
   (if stmtStartsWithPrefixOp prog then ["statement-starts-with-prefix-operator"] else []) ++
   (if commentInExpr prog then ["comment-inside-expression"] else []) ++
   (if fakeClosedComment prog then ["unclosed-block-comment-ending-in-star-slash"] else []) ++
-  (if repeatedAssocOnRight prog then ["repeated-associative-operator-on-the-right"] else []) ++
-  (if nonIdentParam prog then ["illegal-token-as-parameter"] else [])
+  (if repeatedAssocOnRight prog then ["repeated-associative-operator-on-the-right"] else [])
 
 /-- classes that explain a compact-mode failure (compact-adjacent-statements was repaired: in compact mode a
 statement starting with `-`, `+`, `^` is printed in parentheses and a separator is emitted where needed) -/
